@@ -1,5 +1,5 @@
 """C08 - trim_graph preserves the outputs as a function of the inputs."""
-from pyvc.heapspec import (cached, forall_nodes, has_formula, in_done, in_set, is_range, old_cached, old_has_formula,
+from pyvc.heapspec import (cached, forall_nodes, has_formula, in_done, in_set, is_range, is_unbounded, old_cached, old_has_formula,
                            old_in_set, pre_in_set, pre_same_fields, reads, same_formula, same_node, same_value, succ)
 from pyvc.spec import Contract, HeapAddr, HeapCell, HeapCompiler, HeapSet, Lemma, NoneT, Tuple, Union, implies
 
@@ -150,8 +150,9 @@ def pre_trim(self, input_addrs, output_addrs):
 
 
 def tg_keeps_exactly_the_needed(self, input_addrs, output_addrs, result):
-    """(a) cell_map afterwards = the cells that were there and are needed"""
-    return forall_nodes(lambda m: in_set(M, m) == (old_in_set(M, m) and in_set(N, m)))
+    """(a) cell_map afterwards = the cells that were there and are needed - plus the reference cells of unbounded ranges
+    (A:A), which are never removed: a saved model cannot work out again what they stand for"""
+    return forall_nodes(lambda m: in_set(M, m) == (old_in_set(M, m) and (in_set(N, m) or is_unbounded(m))))
 
 
 def tg_outputs_and_dependants_needed(self, input_addrs, output_addrs, result):
@@ -199,7 +200,8 @@ def gg_nothing_changes(self, seed, recursed, result):
 
 
 def wp_processed_are_needed(self, needed_cells, processed_cells, cell, result):
-    """(a range that is only a precedent is walked through but not itself needed: it is rebuilt on demand)"""
+    """(a range that is only a precedent is walked through but not itself needed: a bounded range is rebuilt on demand
+    from its members; the reference cell of an unbounded range is kept by the removal step of trim_graph)"""
     return forall_nodes(lambda m: implies(in_set(P, m) and not old_in_set(P, m), in_set(N, m) or is_range(m)))
 
 
@@ -251,7 +253,7 @@ LEMMAS = []
 
 
 def _c08_workbooks(rnd, n, W):
-    wbs = W.grammar(rnd, n)
+    wbs = W.grammar(rnd, n) + W.random_dags(rnd, max(2, n // 2))
     wbs += [
         # input -> OUT1 -> mid -> OUT2 ; helpers that do not depend on the input
         W.WB({'A1': 3, 'A2': 10}, {'B1': '=A1*2', 'C1': '=B1+1', 'D1': '=C1+H1', 'H1': '=A2*2', 'H2': '=H1-20',
@@ -297,6 +299,8 @@ def bounded(tier, seed, R):
             choices.append(([ins[0]], fcells))                       # every formula cell is an output
             if len(fcells) > 2:
                 choices.append(([ins[0], fcells[0]], [fcells[-1]]))   # a buried (formula) input
+            choices = [(I, O) for (I, O) in choices
+                       if all(any(c in _precedents(W, wb, o) for o in O) for c in I)]    # (an input no output reads is an error by design)
             for (I, O) in choices[:6 if not thorough else 12]:
                 for origin in ('mem', 'xlsx'):
                     for pre in (False, True):
